@@ -9,6 +9,7 @@ use std::cell::RefCell;
 use std::sync::Arc;
 
 pub mod frim;
+pub mod bgp_io;
 pub mod bmp_io;
 pub mod bmp_conn;
 pub mod c09;
@@ -44,4 +45,3 @@ pub fn point(name: &'static str) {
         f(name)
     }
 }
-pub mod bgp_io;
